@@ -4,6 +4,7 @@ import (
 	"bufio"
 	"errors"
 	"fmt"
+	"io"
 	"net"
 	"net/http"
 	"net/http/httptest"
@@ -18,7 +19,7 @@ import (
 // A probe installed as the first global middleware snapshots the context at
 // entry of every request.
 
-var kindNames = []string{"store", "errors", "abort", "status-write", "replace-resp", "replace-req", "set-handlers", "dynamic", "dynamic2", "notfound", "notallowed", "panic", "redispatch", "nested", "copy", "mutate-params", "dynamic3", "delegate", "hijack", "mutate-novar", "novar", "keep-copy", "panic-status", "mutate-query", "query"}
+var kindNames = []string{"store", "errors", "abort", "status-write", "replace-resp", "replace-req", "set-handlers", "dynamic", "dynamic2", "notfound", "notallowed", "panic", "redispatch", "nested", "copy", "mutate-params", "dynamic3", "delegate", "hijack", "mutate-novar", "novar", "keep-copy", "panic-status", "mutate-query", "query", "render-fail", "render-ok", "hijack2"}
 
 type kindReq struct {
 	method, path string
@@ -56,6 +57,22 @@ var kindReqs = map[string]kindReq{
 	"panic-status": {"GET", "/boomst"},
 	"mutate-query": {"GET", "/mq?token=abc&x=1"},
 	"query":        {"GET", "/q?token=abc&x=1"},
+	// a view that fails after it produced part of its output, and a view that renders fine; a second hijacking route
+	"render-fail": {"GET", "/view/bad"},
+	"render-ok":   {"GET", "/view/good"},
+	"hijack2":     {"GET", "/hj2"},
+}
+
+// kindRenderer is the router's view renderer: it writes a heading, then fails for the view named "bad"
+type kindRenderer struct{}
+
+func (kindRenderer) Render(w io.Writer, name string, data any, c *rux.Context) error {
+	_, _ = io.WriteString(w, "<h1>"+name+"</h1>")
+	if name == "bad" {
+		return errors.New("view failed half way")
+	}
+	_, _ = io.WriteString(w, fmt.Sprintf("<p>%v</p>", data))
+	return nil
 }
 
 type wrapW struct{ http.ResponseWriter }
@@ -240,6 +257,19 @@ func newKindRouter(cfg kindCfg) *kindRouter {
 	})
 	get("/q", func(c *rux.Context) {
 		c.WriteString(fmt.Sprintf("q:%s token=%s seen=%s", c.QueryValues().Encode(), c.Query("token"), c.Query("seen", "-")))
+	})
+	r.Renderer = kindRenderer{}
+	get("/view/{name}", func(c *rux.Context) {
+		if err := c.Render(200, c.Param("name"), c.Param("name")+"-data"); err != nil {
+			c.Text(500, "render error: "+err.Error())
+		}
+	})
+	get("/hj2", func(c *rux.Context) {
+		c.SetStatus(202)
+		conn, _, err := c.Resp.(http.Hijacker).Hijack()
+		if err == nil && conn != nil {
+			_ = conn.Close()
+		}
 	})
 	get("/copy", func(c *rux.Context) {
 		cp := c.Copy()
